@@ -61,6 +61,26 @@ theorem fraction_range (jde : ℝ) :
   rw [e]
   refine ⟨rfl, ?_, ?_⟩ <;> linarith
 
+/-- "node … longitudes move at their secular rates" — PARTIAL: the mean node is the `Angle`
+    reduction of a polynomial whose advance between any two epochs within 60 centuries of J2000
+    is `-1934.1362891°` per century up to `0.29°` per century (a period of 18.6 years); that the
+    `Angle` reduction only removes multiples of 360° is property C03 and is not re-proved here;
+    the true node differs from the mean node by the five generated periodic terms. -/
+theorem node_secular_rate_partial (j j' : ℝ) (h : |cent j| ≤ 60) (h' : |cent j'| ≤ 60) :
+    longitude_mean_ascending_node j = to_positive (reduce_deg (node_poly (cent j))) ∧
+    |node_poly (cent j') - node_poly (cent j) - (-1934.1362891) * (cent j' - cent j)| ≤
+      |cent j' - cent j| * (29 / 100) :=
+  ⟨rfl, node_poly_rate h h'⟩
+
+/-- "… perigee longitudes move at their secular rates" — PARTIAL: the mean perigee is the `Angle`
+    reduction of a polynomial whose advance is `+4069.0137287°` per century up to `1.42°` per
+    century (a period of 8.85 years); same residual as for the node. -/
+theorem perigee_secular_rate_partial (j j' : ℝ) (h : |cent j| ≤ 60) (h' : |cent j'| ≤ 60) :
+    longitude_mean_perigee j = reduce_deg (perigee_poly (cent j)) ∧
+    |perigee_poly (cent j') - perigee_poly (cent j) - 4069.0137287 * (cent j' - cent j)| ≤
+      |cent j' - cent j| * (142 / 100) :=
+  ⟨rfl, perigee_poly_rate h h'⟩
+
 /-! ## moon_phase — targets "new", "first", "full", "last" -/
 
 /-- "every target string": the four phase names are accepted (a result is returned for every
